@@ -43,6 +43,7 @@ def setup(rep, tier):
     rep.minimum('R15.6', 4)
     rep.minimum('R15.4', 6)
     rep.minimum('R15.5', 150)
+    rep.minimum('R15.7', 10)
 
 
 def isa_flags(prog, rel):
@@ -210,6 +211,7 @@ def check(rep, prog, tier):
         rep.unresolved('R15.3', 'only %d cross-unit call edges resolved (expected several hundred)' % nedges)
     r15_4(rep, prog)
     r15_5(rep, prog)
+    r15_7(rep, prog)
 
 
 def _max_arch(cf, f):
@@ -564,6 +566,36 @@ def r15_4(rep, prog):
                 else:
                     rep.violated('R15.4', inst, where, '%s clamps to %s (%s) but %s clamps to %s (%s): on saturating data the two kernels return different values, so they are not bit-identical' % (
                         c0.name, sorted(a['sat']), a['where'][0], f.name, sorted(b['sat']), ', '.join(b['where'][:3])), key='%s:%s:%s' % (name, f.name, dest))
+    return n
+
+
+# ------------------------------------------------------------------ R15.7
+import re as _re
+_SUFFIX = _re.compile(r'_(c|sse|sse2|sse4_1|avx|avx2|neon|neon_intr|ne10|dotprod|arm|armv4|armv5e|armv6|rvv)$')
+
+
+def r15_7(rep, prog):
+    """one dispatch table, one kernel: every entry of a run-time dispatch table is an implementation of the same
+    routine (the names agree once the `_c` / `_sse4_1` / `_avx2` ... suffix is removed).  Tables of neighbouring routines have the
+    same function-pointer type, so a slot filled from the wrong family compiles, and each kernel still matches ITS OWN C twin."""
+    n = 0
+    for name, g in sorted(prog.globals.items()):
+        if not (g.get('pointee_func') and g.get('dims') and 'init' in g and g.get('defined')):
+            continue
+        ents = [e['addr'] for e in flatten(g['init']) if isinstance(e, dict) and e.get('isfunc')]
+        if len(ents) < 2:
+            continue
+        n += 1
+        bases = {}
+        for i, e in enumerate(ents):
+            bases.setdefault(_SUFFIX.sub('', e), []).append((i, e))
+        inst = '%s:%s dispatches to implementations of one routine' % (prog.config, name)
+        if len(bases) == 1:
+            rep.holds('R15.7', inst, g['loc'], 'routine `%s`' % next(iter(bases)))
+        else:
+            major = max(bases, key=lambda b: len(bases[b]))
+            odd = [(i, e) for b, v in bases.items() if b != major for i, e in v]
+            rep.violated('R15.7', inst, g['loc'], 'entry %d is `%s`, the other entries implement `%s`: that level runs a different algorithm than the C reference' % (odd[0][0], odd[0][1], major), key='%s:family' % name)
     return n
 
 
